@@ -533,6 +533,7 @@ func runSessions(c *lib.Ctx, terms *[]string) error {
 	rng := rand.New(rand.NewSource(c.Seed*15485863 + 16))
 	sessions := genSessions(c, rng)
 	outs := playAll(c, sessions)
+	probeSessions(sessions, outs)
 	for i := range sessions {
 		s := &sessions[i]
 		judge(c, terms, s, outs[s.ID], byPath[s.Asset])
@@ -1309,4 +1310,68 @@ func replay(c *lib.Ctx) error {
 		fmt.Printf("%s: %s\n", f.Key, f.What)
 	}
 	return nil
+}
+
+// probeSessions decides two model variants from what two of the played sessions did (the oracle
+// judges those sessions independently of the model):
+//   - first number: the session with start number 3 at testNowMS=10000 on 2 s segments (live edge 7):
+//     first media number 8 = the start number is honoured, 5 = it is ignored;
+//   - catch-up loop: the real-time session with duration 2 s whose first upload takes longer than a
+//     segment: does the second (caught-up, last) segment carry lmsg?
+func probeSessions(sessions []sessIn, outs map[int]*played) {
+	firstMedia := func(p *played) []putObs {
+		var out []putObs
+		if p == nil || p.out == nil {
+			return nil
+		}
+		for _, e := range p.out.Events {
+			for _, q := range e.Puts {
+				if !q.IsInit && q.ParseErr == "" && q.BodyRead {
+					out = append(out, q)
+				}
+			}
+		}
+		return out
+	}
+	variant.firstHow, variant.catchupHow = "probe session not played, default kept", "probe session not played, default kept"
+	for i := range sessions {
+		s := &sessions[i]
+		p := outs[s.ID]
+		switch s.Kind {
+		case "r:startnr":
+			puts := firstMedia(p)
+			switch {
+			case p != nil && p.died:
+				variant.firstHow = "probe session died, default kept"
+			case len(puts) == 0:
+				variant.firstHow = "probe session delivered nothing, default kept"
+			case puts[0].SeqNr == 8:
+				variant.firstFix, variant.firstHow = "true", "snr_3, live edge 7: first number 8"
+			case puts[0].SeqNr == 5:
+				variant.firstFix, variant.firstHow = "false", "snr_3, live edge 7: first number 5"
+			default:
+				variant.firstHow = fmt.Sprintf("snr_3, live edge 7: first number %d: neither variant, default kept", puts[0].SeqNr)
+			}
+		case "r:realtime-catchup":
+			puts := firstMedia(p)
+			var v []putObs
+			for _, q := range puts {
+				if q.Rep == "V300" {
+					v = append(v, q)
+				}
+			}
+			switch {
+			case p != nil && p.died:
+				variant.catchupHow = "probe session died, default kept"
+			case len(v) < 2:
+				variant.catchupHow = fmt.Sprintf("probe session delivered %d video segments, default kept", len(v))
+			case v[1].Lmsg && len(v) == 2:
+				variant.catchup, variant.catchupHow = "true", "the caught-up last segment carries lmsg, nothing follows"
+			case !v[1].Lmsg:
+				variant.catchup, variant.catchupHow = "false", "the caught-up last segment has no lmsg"
+			default:
+				variant.catchupHow = "caught-up segment marked but more follow: neither variant, default kept"
+			}
+		}
+	}
 }
